@@ -130,6 +130,20 @@ class SUnb:
         return f"<SUnb {self.name}>"
 
 
+class SAbsSet:
+    """An abstract (unbounded) collection of 9-character ids: membership is an uninterpreted
+    but functional predicate over the id's characters, plus elements appended later."""
+
+    def __init__(self, name):
+        import z3 as _z3
+        self.name = name
+        self.fn = _z3.Function(f"member_{name}", *([_z3.IntSort()] * 9), _z3.BoolSort())
+        self.extra = []
+
+    def __repr__(self):
+        return f"<SAbsSet {self.name}>"
+
+
 class SObj:
     """An instance of the real class `cls` whose attributes may be symbolic."""
 
@@ -227,7 +241,7 @@ class STd:
 def is_symbolic(v, _depth=0):
     """Deep check: does v contain anything symbolic / engine-owned?"""
     if isinstance(v, (SBool, SInt, SFloat, SStr, SObj, SSet, SFunc, SBound, SSuper,
-                      SMatch, Opaque, SDt, STd, SUnb)):
+                      SMatch, Opaque, SDt, STd, SUnb, SAbsSet)):
         return True
     if _depth > 6:
         return False
